@@ -419,37 +419,11 @@ def claims_serde_shape(ctx, prog, kind):
 
 def derived_equality(ctx, prog):
     """Equality of the credential / presentation data types is the compiler-derived structural one: the consistency check
-    (`vc.issuer == iss`, ...) and the round-trip oracle (`decoded == original`) both rest on it.  Every `PartialEq::eq` defined in the
-    credential and presentation modules must sit on a `#[derive(.. PartialEq ..)]` - its impl span is that token in /repo's source."""
-    from replay import run_replay
-    name = 'equality/credential-and-presentation-types-compare-structurally'
-    eqs = []
-    for g in prog.funcs:
-        m = re.search(r'<impl at (identity_credential/src/(?:credential|presentation)/[^:>]+\.rs):(\d+):(\d+): (\d+):(\d+)>::(eq|ne)$', g.name)
-        if m:
-            eqs.append((g.name, m.group(1), int(m.group(2)), int(m.group(3)), int(m.group(4)), int(m.group(5))))
-    need = {'issuer.rs', 'credential.rs', 'presentation.rs', 'subject.rs'}
-    have = {os.path.basename(e[1]) for e in eqs}
-    if not need <= have:
-        # a type lost its equality altogether would not compile where it is compared; a moved impl is simply not recognised here
-        ctx.add(Ob(name, 'M', INCONCLUSIVE, detail='no PartialEq::eq found for %s' % sorted(need - have)))
-        return
-    hand = []
-    for (fn_, path, l1, c1, l2, c2) in eqs:
-        try:
-            line = open(os.path.join(REPO, path), encoding='utf-8').read().split('\n')[l1 - 1]
-        except Exception:
-            line = ''
-        if not (l1 == l2 and line[c1 - 1:c2 - 1] == 'PartialEq' and 'derive' in line):
-            hand.append('%s (%s:%d)' % (fn_.split('::')[0], path, l1))
-    if not hand:
-        ctx.add(Ob(name, 'M', HELD, queries=len(eqs), sample='%d equality impls in the credential / presentation modules, all derived' % len(eqs)))
-        return
-    rep = {'scenario': 'claims', 'cex': {'only': '[consistency]'}}
-    res = run_replay(rep)
-    ctx.add(Ob(name, 'M', VIOLATED if res.get('reproduced') else INCONCLUSIVE,
-               detail='hand-written equality: %s; native: %s' % (', '.join(hand)[:200], res.get('detail', '')[:300]), replay=rep))
-
+    (`vc.issuer == iss`, ...) and the round-trip oracle (`decoded == original`) both rest on it (see derives.py)."""
+    import derives
+    derives.derived_impls(ctx, prog, 'equality/credential-and-presentation-types-compare-structurally',
+                          r'identity_credential/src/(?:credential|presentation)/[^:>]+\.rs', ['issuer.rs', 'credential.rs', 'presentation.rs', 'subject.rs'],
+                          {'scenario': 'claims', 'cex': {'only': '[consistency]'}})
 
 def main(ctx):
     prog, info = load(CRATES, src_only=SRC)
